@@ -11,6 +11,8 @@ import ChessVerif.Proofs.Search.IterAvail
 namespace Chess.Proofs.Search
 open Chess Chess.Engine Chess.MoveGen Chess.Gen.ScoreFns
 
+variable (pos : Bool)
+
 /-- not one of the two sentinels -/
 def NS (s : Score) : Prop := s ≠ .min ∧ s ≠ .max
 
@@ -38,7 +40,7 @@ theorem isBetter_worst (pc : Color) (s : Score) (h : NS s) : isBetter pc (worst 
 theorem shapeGE_mono {c d : Nat} (h : c ≤ d) {s : Score} (hs : ShapeGE d s) : ShapeGE c s := by
   cases s <;> simp only [ShapeGE] at * <;> omega
 
-theorem eval_raw (b : Board) : ∃ x, eval b = .raw x := by
+theorem eval_raw (b : Board) : ∃ x, eval pos b = .raw x := by
   unfold eval
   split
   · exact ⟨0, rfl⟩
@@ -127,9 +129,9 @@ theorem child_step (k : Nat) (pc : Color) (cur : Nat) (score alpha beta : Score)
 
 theorem children_spec (k fuel : Nat)
     (hP : ∀ old mv rem cur alpha beta list st,
-      ABSpec k old mv cur st (alphabeta k fuel old mv rem cur alpha beta list st)) :
+      ABSpec k old mv cur st (alphabeta pos k fuel old mv rem cur alpha beta list st)) :
     ∀ n board pc rem cur list moves score alpha beta st,
-      ChSpec k pc cur n moves score st (children k fuel board pc rem cur list n moves score alpha beta st) := by
+      ChSpec k pc cur n moves score st (children pos k fuel board pc rem cur list n moves score alpha beta st) := by
   intro n
   induction n with
   | zero =>
@@ -162,14 +164,14 @@ theorem children_spec (k fuel : Nat)
           omega
         · simp only [hd, decide_false, Bool.false_eq_true, if_false]
           obtain ⟨hm, ha, hb, _⟩ := hP board mv rem cur alpha beta list { polls := st.polls + 1, evals := st.evals }
-          have hm' : st.polls ≤ (alphabeta k fuel board mv rem cur alpha beta list
+          have hm' : st.polls ≤ (alphabeta pos k fuel board mv rem cur alpha beta list
               { polls := st.polls + 1, evals := st.evals }).2.polls := Nat.le_trans (Nat.le_succ _) hm
           obtain ⟨c1, c2, c3⟩ := child_step k pc cur score alpha beta st
-            (alphabeta k fuel board mv rem cur alpha beta list { polls := st.polls + 1, evals := st.evals })
-            (fun sc a b s => children k fuel board pc rem cur list n moves' sc a b s) hm' ha hb
+            (alphabeta pos k fuel board mv rem cur alpha beta list { polls := st.polls + 1, evals := st.evals })
+            (fun sc a b s => children pos k fuel board pc rem cur list n moves' sc a b s) hm' ha hb
             (fun sc a b => by
               obtain ⟨im, ia, ib⟩ := ih board pc rem cur list moves' sc a b
-                (alphabeta k fuel board mv rem cur alpha beta list { polls := st.polls + 1, evals := st.evals }).2
+                (alphabeta pos k fuel board mv rem cur alpha beta list { polls := st.polls + 1, evals := st.evals }).2
               exact ⟨im, fun hk hs => ia hk (Or.inl hs), ib⟩)
           refine ⟨c1, ?_, c3⟩
           intro hk hor
@@ -180,9 +182,9 @@ theorem children_spec (k fuel : Nat)
 
 theorem alphabeta_succ_spec (k fuel : Nat)
     (hQ : ∀ n board pc rem cur list moves score alpha beta st,
-      ChSpec k pc cur n moves score st (children k fuel board pc rem cur list n moves score alpha beta st)) :
+      ChSpec k pc cur n moves score st (children pos k fuel board pc rem cur list n moves score alpha beta st)) :
     ∀ old mv rem cur alpha beta list st,
-      ABSpec k old mv cur st (alphabeta k (fuel + 1) old mv rem cur alpha beta list st) := by
+      ABSpec k old mv cur st (alphabeta pos k (fuel + 1) old mv rem cur alpha beta list st) := by
   intro old mv rem cur alpha beta list st
   rw [alphabeta.eq_2]
   generalize (if (old.raw.get mv.dest).isSome = true then BoardList.new (old.moveUnchecked mv) list.table
@@ -217,14 +219,14 @@ theorem alphabeta_succ_spec (k fuel : Nat)
   · exact absSpec_raw ..
   have fin : ∀ (c : Bool) (moves : MoveGen), (c = false → (moves.next).1.isSome = true) →
       ABSpec k old mv cur st
-        (if c = true then (eval (old.moveUnchecked mv), { polls := st.polls, evals := st.evals + 1 })
-         else children k fuel (old.moveUnchecked mv) (old.moveUnchecked mv).turn (rem - 1) (cur + 1) list' 5000
+        (if c = true then (eval pos (old.moveUnchecked mv), { polls := st.polls, evals := st.evals + 1 })
+         else children pos k fuel (old.moveUnchecked mv) (old.moveUnchecked mv).turn (rem - 1) (cur + 1) list' 5000
            moves (worst (old.moveUnchecked mv).turn) alpha beta st) := by
     intro c moves hsome
     cases c with
     | true =>
       rw [if_pos rfl]
-      obtain ⟨x, hx⟩ := eval_raw (old.moveUnchecked mv)
+      obtain ⟨x, hx⟩ := eval_raw pos (old.moveUnchecked mv)
       rw [hx]
       exact ⟨Nat.le_refl _, fun _ => NS_raw x, trivial, fun h => absurd h (not_mateAt_raw cur x)⟩
     | false =>
@@ -246,20 +248,20 @@ theorem alphabeta_succ_spec (k fuel : Nat)
     simpa using hne
 
 theorem alphabeta_spec (k : Nat) : ∀ fuel old mv rem cur alpha beta list st,
-    ABSpec k old mv cur st (alphabeta k fuel old mv rem cur alpha beta list st) := by
+    ABSpec k old mv cur st (alphabeta pos k fuel old mv rem cur alpha beta list st) := by
   intro fuel
   induction fuel with
   | zero =>
     intro old mv rem cur alpha beta list st
     rw [alphabeta.eq_1]
     exact absSpec_raw ..
-  | succ fuel ih => exact alphabeta_succ_spec k fuel (children_spec k fuel ih)
+  | succ fuel ih => exact alphabeta_succ_spec pos k fuel (children_spec pos k fuel ih)
 
 /-- a mating move that is not scored as a drawn capture gets the mate score at once -/
 theorem alphabeta_mate (k fuel : Nat) (old : Board) (mv : Move) (rem cur : Nat) (alpha beta : Score)
     (list : BoardList) (st : St) (hm : mates old mv = true)
     (hd : ((old.raw.get mv.dest).isSome && insufficientMaterial (old.moveUnchecked mv)) = false) :
-    alphabeta k (fuel + 1) old mv rem cur alpha beta list st =
+    alphabeta pos k (fuel + 1) old mv rem cur alpha beta list st =
       (mateScore (old.moveUnchecked mv).turn cur, st) := by
   unfold mates at hm
   rw [Bool.and_eq_true] at hm
